@@ -24,13 +24,18 @@ def struct_of(ctx, name):
     return st.get(name)
 
 
-def run(ctx):
+def run(ctx, standalone=True):
     ctx.rule('C15.THRESHOLD', lambda: rule_threshold(ctx), 1)
     ctx.rule('C15.KEEP', lambda: rule_keep(ctx), 2)
     ctx.rule('C15.PRUNE', lambda: rule_prune(ctx), 4)
     ctx.rule('C15.ORDERKEY', lambda: rule_key(ctx), 3)
     ctx.rule('C15.REFUSAL', lambda: rule_refusal(ctx), 1)
     ctx.rule('C15.STORED', lambda: rule_stored(ctx), 2)
+    ctx.rule('C15.PENDING', lambda: rule_pending_owned(ctx), 3)
+    if standalone:
+        # 'replacing up to the reorg limit of most recent blocks': the range backed out must be exactly the fork depth
+        from . import c03
+        ctx.rule('C15.RANGE', lambda: c03.rule_range(ctx), 5)
 
 
 def rule_threshold(ctx):
@@ -191,6 +196,53 @@ def rule_refusal(ctx):
         ctx.ok('C15.REFUSAL', ctx.key(f, None, 'no refusal'), 'no refusal on the undo info value')
         n = 1
     return n
+
+
+def rule_pending_owned(ctx, rule='C15.PENDING'):
+    '''The pending containers handed to the DB in FlushData (headers, tx hashes, undo infos, UTXO adds, deletes) are emptied
+    by the DB only, after it wrote them.  If the block processor rebinds or clears one of them itself, whatever a
+    history-only flush left pending (undo infos, UTXO changes) is dropped without ever being written.'''
+    n = 0
+    bprel = ctx.repo.path('bp')
+    fields = []
+    for f in ctx.repo.funcs.values():
+        if f.unit.relpath != bprel or f.cls != 'BlockProcessor':
+            continue
+        for c in f.own_nodes():
+            if isinstance(c, ast.Call) and norm(c.func) == 'FlushData':
+                for a in c.args[1:]:
+                    cn = ctx.res.canon(a, f)
+                    if cn and cn.startswith('self.') and cn not in fields:
+                        fields.append(cn)
+    if len(fields) < 3:
+        raise AnalysisError('BlockProcessor: FlushData(...) hand-over of the pending containers not found')
+
+    def hits(t, f):
+        if isinstance(t, (ast.Tuple, ast.List)):
+            return [x for e in t.elts for x in hits(e, f)]
+        if isinstance(t, ast.Attribute) and ctx.res.canon(t, f) in fields:
+            return [ctx.res.canon(t, f)]
+        return []
+    for f in ctx.repo.funcs.values():
+        if f.unit.relpath != bprel or f.cls != 'BlockProcessor' or f.name == '__init__':
+            continue
+        for s_ in f.own_nodes():
+            bad = []
+            if isinstance(s_, ast.Assign):
+                bad = [x for t in s_.targets for x in hits(t, f)]
+            elif isinstance(s_, ast.Delete):
+                bad = [x for t in s_.targets for x in hits(t, f)]
+            elif isinstance(s_, ast.Call) and isinstance(s_.func, ast.Attribute) and s_.func.attr == 'clear' \
+                    and ctx.res.canon(s_.func.value, f) in fields:
+                bad = [ctx.res.canon(s_.func.value, f)]
+            if bad:
+                n += 1
+                ctx.bad(rule, ctx.key(f, q.stmt(s_)), f'`{norm(q.stmt(s_))[:70]}` empties {", ".join(bad)} on the block-processor side: entries '
+                        'that the DB has not written yet (a history-only flush writes neither undo infos nor UTXO changes) are lost',
+                        loc=ctx.loc(f, s_))
+    ctx.ok(rule, f'{bprel} :: BlockProcessor :: pending containers emptied by the DB only',
+           f'no method of BlockProcessor rebinds or clears {", ".join(fields)}')
+    return n + len(fields)
 
 
 def rule_stored(ctx):
